@@ -73,11 +73,12 @@ func c11InputOf(c c11Case) c11Input {
 	return c11Input{Mode: c.Mode, Name: c.Name, Path: c.Path, Files: c.Files, Gas: c.Gas}
 }
 
-// c11Submit runs the input in the shared child and, when the observation is a
-// candidate violation (death, no answer, memory, Go-level fault), once more
-// ALONE in a fresh child; only a confirmed observation is returned as such.
-// confirmed=false with a non-empty note means "observed once, not reproduced".
-func c11Submit(in c11Input) (res c11Result, confirmed bool, note string, err error) {
+// c11Submit runs the input in the shared child. When the observation is a
+// candidate violation (death, no answer, memory, Go-level fault) whose key is
+// not a known finding, the input runs once more ALONE in a fresh child; only a
+// confirmed observation is returned as such. confirmed=false with a non-empty
+// note means "observed once, not reproduced".
+func c11Submit(in c11Input, known func(c11Result) bool) (res c11Result, confirmed bool, note string, err error) {
 	c11ThePool.mu.Lock()
 	defer c11ThePool.mu.Unlock()
 	ch, err := c11ThePool.get()
@@ -88,7 +89,7 @@ func c11Submit(in c11Input) (res c11Result, confirmed bool, note string, err err
 	in.ID = ch.served + 1
 	res = ch.ask(in, budget)
 	suspect := res.Died || res.TimedOut || res.Out.Class == "mem-exceeded" || res.Out.Class == c11GoRuntime || res.Out.Class == c11GoInvariant
-	if !suspect {
+	if !suspect || known(res) {
 		return res, true, "", nil
 	}
 	first := res
@@ -114,6 +115,22 @@ func c11Submit(in c11Input) (res c11Result, confirmed bool, note string, err err
 	return res2, false, "unconfirmed-" + what, nil
 }
 
+// c11Keys lists the known-finding keys under which an observation may be filed.
+func c11Keys(res c11Result) []string {
+	switch {
+	case res.Died:
+		_, site := c11DeathSite(res.DeathMsg)
+		return []string{"death@" + site, "death@" + c11DeathFunc(res.DeathMsg)}
+	case res.TimedOut:
+		return nil
+	case res.Out.Class == "mem-exceeded":
+		return []string{"memory@" + res.Out.Site}
+	case res.Out.Class == c11GoRuntime || res.Out.Class == c11GoInvariant:
+		return []string{res.Out.Class + "@" + res.Out.Site, res.Out.Class + "@" + res.Out.Func}
+	}
+	return nil
+}
+
 // c11Exec wraps the oracle; with C11_COLLECT=<file> (calibration only) every
 // violation is appended to the file and the search continues.
 func c11Exec(ctx *vk.Ctx, c c11Case) error {
@@ -135,7 +152,17 @@ func c11Oracle(ctx *vk.Ctx, c c11Case) error {
 	ctx.Class("src=" + c.Src)
 	ctx.Class("mode=" + c.Mode)
 	t0 := time.Now()
-	res, confirmed, note, err := c11Submit(c11InputOf(c))
+	isKnown := func(r c11Result) bool {
+		for _, k := range c11Keys(r) {
+			if ctx.Known(k) {
+				ctx.Class("known:" + k)
+				return true
+			}
+		}
+		return false
+	}
+	knownHit := false
+	res, confirmed, note, err := c11Submit(c11InputOf(c), func(r c11Result) bool { knownHit = isKnown(r); return knownHit })
 	wall := time.Since(t0).Milliseconds()
 	if err != nil {
 		// harness trouble (cannot start a child): not a verdict about gno
@@ -158,8 +185,7 @@ func c11Oracle(ctx *vk.Ctx, c c11Case) error {
 		}
 		ctx.NT()
 		key := "death@" + site
-		if ctx.Known(key) || ctx.Known("death@"+c11DeathFunc(res.DeathMsg)) {
-			ctx.Class("known:" + key)
+		if knownHit || isKnown(res) {
 			return nil
 		}
 		return fmt.Errorf("the node process died while handling the submission (confirmed alone): %s; key %q\n%s", what, key, c11Bound(res.DeathMsg, 5000))
@@ -209,8 +235,7 @@ func c11Oracle(ctx *vk.Ctx, c c11Case) error {
 		}
 		ctx.NT()
 		key := "memory@" + o.Site
-		if ctx.Known(key) {
-			ctx.Class("known:" + key)
+		if knownHit || isKnown(res) {
 			return nil
 		}
 		return fmt.Errorf("live memory far above the allocation limit (confirmed alone): %s; key %q\n%s", o.Detail, key, o.Stack)
@@ -219,8 +244,7 @@ func c11Oracle(ctx *vk.Ctx, c c11Case) error {
 			return nil
 		}
 		k1, k2 := o.Class+"@"+o.Site, o.Class+"@"+o.Func
-		if ctx.Known(k1) || ctx.Known(k2) {
-			ctx.Class("known:" + k1)
+		if knownHit || isKnown(res) {
 			return nil
 		}
 		return fmt.Errorf("Go-level fault of the interpreter (%s, %s): %s\nsite %s (%s); keys %q / %q\n%s", o.Class, o.GoType, o.Detail, o.Site, o.Func, k1, k2, o.Stack)
